@@ -81,7 +81,14 @@ mod actual {
             if tasks.is_empty() { None } else { Some(tasks) }
         };
 
-        let jobs = read_csv_entries::<CsvJob, _>(reader)?
+        let entries = read_csv_entries::<CsvJob, _>(reader)?;
+
+        // NOTE: the magnitude of i32::MIN cannot be represented as a demand value
+        if let Some(job) = entries.iter().find(|job| job.demand.checked_abs().is_none()) {
+            return Err(format!("demand of job '{}' is out of range", job.id).into());
+        }
+
+        let jobs = entries
             .iter()
             .fold(HashMap::<_, Vec<_>>::new(), |mut acc, job| {
                 acc.entry(&job.id).or_default().push(job);
